@@ -786,6 +786,23 @@ func ruleC07SEID(w *World, r *Report) {
 			if ok && (op == token.LSS || op == token.GEQ) && strings.HasSuffix(symOf(y).String(), "maxRetries") {
 				bounded = true
 			}
+			// the same budget counted the other way: the tries left start at maxRetries, every round of
+			// the loop that draws takes some away, and the loop goes on only while some are left
+			if ok && naturalLoop(b)[cand.Block()] && b.Dominates(cand.Block()) {
+				x, op, y := edgeFactArgs(b, sc)
+				if _, isK := constInt(x); isK {
+					x, op, y = y, flipOp(op), x
+				}
+				k, isK := constInt(y)
+				stays := naturalLoop(b)[sc] && sc != b
+				switch {
+				case !isK || !countsDownFrom(x, b, "maxRetries"):
+				case stays && (op == token.GTR && k >= 0 || op == token.GEQ && k >= 1):
+					bounded = true
+				case !stays && (op == token.LEQ && k >= 0 || op == token.LSS && k >= 1):
+					bounded = true
+				}
+			}
 		}
 	}
 	r.check(bounded, "R07.5", fn, "the retry loop is bounded by maxRetries", w.Pos(f.Pos()), "i < maxRetries", "the retry loop is not bounded")
@@ -837,6 +854,36 @@ func ruleC07SEID(w *World, r *Report) {
 		}
 	})
 	r.floor("R07.5 store writes", n, 1)
+}
+
+func edgeFactArgs(a, b *ssa.BasicBlock) (ssa.Value, token.Token, ssa.Value) {
+	x, op, y, _ := edgeFact(a, b)
+	return x, op, y
+}
+
+// countsDownFrom: v is the counter of the loop headed by hdr that starts (on every way in from outside
+// the loop) at a value named by suffix and is made smaller by a positive constant on every way round.
+func countsDownFrom(v ssa.Value, hdr *ssa.BasicBlock, suffix string) bool {
+	phi, ok := v.(*ssa.Phi)
+	if !ok || phi.Block() != hdr {
+		return false
+	}
+	starts, steps := 0, 0
+	for k, e := range phi.Edges {
+		if hdr.Dominates(hdr.Preds[k]) { // back edge
+			root, c := rootOffset(e)
+			if root != ssa.Value(phi) || c >= 0 {
+				return false
+			}
+			steps++
+			continue
+		}
+		if !strings.HasSuffix(symOf(e).String(), suffix) {
+			return false
+		}
+		starts++
+	}
+	return starts > 0 && steps > 0
 }
 
 func ruleC07Reported(w *World, r *Report, alloc *ssa.Function) {
